@@ -16,6 +16,7 @@ import Flamego.Driver.Render
 import Flamego.Driver.Chain
 import Flamego.Driver.Noop
 import Flamego.Driver.Dsl
+import Flamego.Driver.Parser
 open Flamego Flamego.Driver
 
 def dispatch (o : Oracle) (kind : String) (args : List String) (body : List (List String)) : List String :=
@@ -32,6 +33,7 @@ def dispatch (o : Oracle) (kind : String) (args : List String) (body : List (Lis
   | "chain" => Chain.session args body
   | "noop" => Noop.session args body
   | "dsl" => Dsl.session args body
+  | "parser" => Parser.session args body
   | _ => "bad-kind" :: body.map (fun _ => "bad-kind")
 
 def dispatchQueries (kind : String) (args : List String) (body : List (List String)) : List String :=
